@@ -53,7 +53,7 @@ def judge_results(case, obs, drv, allow_comm_error, out):
     for ci, (cspec, rec) in enumerate(zip(case["callers"], obs["callers"])):
         where = "%s caller %d (%s %s, t0=%.3f)" % (drv, ci, cspec["kind"], [c["k"] for c in cspec["cmds"]][:4], cspec.get("t0", 0))
         if rec["status"] == "ok":
-            cmds = [c for c in cspec["cmds"] if c["k"] not in ("sleep", "progress")]
+            cmds = [c for c in cspec["cmds"] if c["k"] not in ("sleep", "progress", "power")]
             for c, got in zip(cmds, rec["results"]):
                 cmd = sc.build_cmd(c)
                 oc = tuple(c.get("oc", ("silent",)))
@@ -286,7 +286,7 @@ def judge_loss(case, obs):
     need = {}
     for cspec in case["callers"]:
         for c in cspec["cmds"]:
-            if c["k"] in ("sleep", "progress"):
+            if c["k"] in ("sleep", "progress", "power"):
                 continue
             cmd = sc.build_cmd(c)
             if cmd.devicetype:
@@ -350,7 +350,7 @@ def judge_mute(case, obs):
     confirm = 1.0 if drv == "luba" else 0.1
     answer = 0.025 if drv == "luba" else 0.030
     for ci, (cspec, rec) in enumerate(zip(case["callers"], obs["callers"])):
-        n = len([c for c in cspec["cmds"] if c["k"] not in ("sleep", "progress")])
+        n = len([c for c in cspec["cmds"] if c["k"] not in ("sleep", "progress", "power")])
         if rec["status"] == "pending":
             out.append(("C17:%s:caller-hangs" % drv, "%s caller %d still pending at t=%.1f s with a mute gateway" % (drv, ci, obs["t_end"])))
         elif "t_done" in rec and "t_start" in rec:
@@ -467,6 +467,10 @@ def loss_case(draw, driver=None):
         callers.append({"kind": kind, "cmds": cmds, "t0": draw(st.sampled_from([0.0, 0.0, 0.01, 0.03, 0.06, 0.5, 1.2, 2.5]))})
         if kind == "seq" and draw(st.booleans()):
             cmds.insert(draw(st.integers(0, len(cmds))), {"k": "sleep", "d": draw(st.sampled_from([0.02, 0.3]))})
+        if kind == "txn" and drv == "tridonic" and draw(st.integers(0, 2)) == 0:
+            # the interface's bus power supply is switched inside the transaction: one more packet that can be the one whose
+            # write fails
+            cmds.insert(draw(st.integers(0, len(cmds))), {"k": "power", "on": draw(st.booleans())})
         if kind in ("send", "txn") and draw(st.integers(0, 2)) == 0:
             callers[-1]["exceptions"] = draw(st.booleans())      # said at the call (exceptions=...), overriding the driver's default
         # (hasseb reports carry no identity: an abandoned QUERY's answer cannot be told from the next query's - documented)
